@@ -71,6 +71,88 @@ CLAIMED = {
              "boundaries; outputs must equal the uninterrupted run modulo the ?BREAK block and its forced line break.",
         note="The slicing theorem execute(n+m) = execute(n); execute(m) is not yet proved.",
         technique="Coq model + theorems; schedule-enumerating differential and relational check"),
+
+    "C02": dict(
+        text="Theorems (Props/C02.v): the parser's precedence tables are the manual's 13 levels; relational operators yield exactly 0 or -1. "
+             "Random and exhaustive (all operator pairs, unary/binary pairs) expression trees are rendered with the parentheses the manual's "
+             "table requires and must parse back to the tree; every operator x operand-type x boundary-value combination is compared "
+             "model vs implementation and against the documented result type; typed assignment and literal typing are checked against "
+             "the manual's rules.",
+        note="The round-trip theorem parse(render e) = e is proved for a prototype grammar only (DESIGN.md); values of ^ with a non-Integer "
+             "operand are compared by type (powf/powi are oracles).",
+        technique="Coq model + theorems; tree-rendering spec monitor and type-matrix differential check"),
+    "C05": dict(
+        text="Theorem that a string literal's payload is copied from the source character for character (Props/C05.v); all short strings over "
+             "the lexical alphabet, token-spelling pairs, soup and program lines are listed twice (fixed point), compared for line number and "
+             "AST (original vs listed text), and programs are saved and loaded through Listing::load_str.",
+        note="One known finding is listed (text glued to REM). The unbounded theorem lex(print ts) = ts is not yet proved.",
+        technique="Coq model + theorems; exhaustive short-string relational check on the implementation"),
+    "C06": dict(
+        text="Theorems (Props/C06.v): an absent key reads as the zero of its own type; conversion on store yields a value of exactly the "
+             "variable's type or an error. Random sequences of assignments, reads, DIM/ERASE, DEFtype, SWAP and CLEAR over aliasing-prone "
+             "names are run on model and implementation and every printed value and error is predicted by a typed total-map reference.",
+        note="Key-construction injectivity (array keys vs scalar keys) is checked by the sequences, not yet proved.",
+        technique="Coq model + theorems; sequence-based differential check with a reference store"),
+    "C11": dict(
+        text="Theorems (Props/C11.v): a ',' prints 14 - col mod 14 blanks (1..14, ending on a multiple of 14); TAB(n) prints n - col blanks "
+             "or nothing. Programs of PRINT statements with every separator, TAB/SPC/POS, CLS and INPUT in between are run on model and "
+             "implementation and compared character by character with an independent terminal emulator that has its own shortest-digits "
+             "number formatter; random f32/f64 bit patterns are formatted on both sides and checked for read-back, minimal digit count "
+             "and notation.",
+        note="'Shortest decimal that reads back' is validated per value (model's exact-rational algorithm vs Rust vs a Python search), "
+             "not proved for all floats.",
+        technique="Coq model + theorems; layout emulator monitor and per-value number-format validation"),
+    "C14": dict(
+        text="Theorem that a failing RENUM returns before any line is touched (Props/C14.v); link-clean programs with every referencing "
+             "form, non-ASCII text before operands, line 0 and omitted operands are renumbered with boundary and random argument triples "
+             "on model and implementation; monitors check the numbering formula, that only line-number operands changed (token-wise), that "
+             "failure leaves the listing byte-identical, and that the renumbered program runs identically modulo reported line numbers.",
+        note="The AST-level rewrite theorem (every reference form is visited) is not yet proved.",
+        technique="Coq model + theorems; differential and relational (before/after) check"),
+    "C15": dict(
+        text="Theorem that an inserted line is found again (Props/C15.v); histories of insert / replace / bare-number delete / LIST / DELETE "
+             "in every range form over a small line universe (all range operations on a seeded store exhaustively, random longer "
+             "histories, random histories over the whole number range) run on model and implementation; a reference map predicts every "
+             "LIST output, every rejection and the listing after every step.",
+        note="The refinement theorem (sorted list = finite map) is stated for insert only so far.",
+        technique="Coq model + theorems; history-based differential check with a reference map"),
+    "C16": dict(
+        text="Theorems (Props/C16.v): ? and ' scan to the PRINT and REM tokens; the operator and GO TO / GO SUB merges hold for any amount "
+             "of blank space. Every line of generated programs is rendered in random spellings (case, ?, ', GO TO, GO SUB, dropped LET, "
+             "=< =>, blanks inside relational operators and at non-alphanumeric boundaries, keywords glued to numbers); variants must give "
+             "the same AST, the same listing modulo LET / remark marker / amount of blank space, and whole programs the same transcript.",
+        note="One known finding is listed (GO SUB glued to digits). Listing equality is taken modulo the amount of blank space, because the "
+             "listing deliberately keeps the user's blanks (see DESIGN.md).",
+        technique="Coq model + theorems; spelling-variant relational check on the implementation"),
+    "C17": dict(
+        text="Theorem that a reply without commas and quotes is one field (Props/C17.v); INPUT statements of every shape are answered with "
+             "replies from a grammar on model and implementation; an independent specification of splitting, trimming, unquoting and "
+             "numeric conversion predicts the prompt, the capitalisation flag, acceptance with the stored values, or REDO FROM START "
+             "followed by the same prompt.",
+        note="Numeric fields outside the documented grammar (inf, nan, suffix characters) are compared model-vs-implementation only.",
+        technique="Coq model + theorems; reply-grammar differential check with an input specification monitor"),
+    "C18": dict(
+        text="Theorems (Props/C18.v): a push beyond 65536 stack entries reports OUT OF MEMORY; SWAP leaves exactly two values. Every "
+             "statement kind runs 70000 times in a loop (implementation) and 2500 times (model and implementation) and must finish; "
+             "GOSUB / FN recursion, abandoned frames, 65537 variables / DATA constants / instructions must end in OUT OF MEMORY with the "
+             "session usable; zeroing variables at the pool limit must free slots.",
+        note="One known finding is listed (an oversized stored program blocks direct mode). The 70000-iteration and pool-limit runs are "
+             "implementation-only: the model's association-list store makes them too slow.",
+        technique="Coq model + theorems; long-run and limit-driving checks"),
+    "C19": dict(
+        text="Theorem that the displayed range is the parser's range shifted by the line-number prefix (Props/C19.v); programs of "
+             "sentinel-printing lines with injected dangling references in every referencing form, unmatched WHILE/WEND and token damage "
+             "behind ASCII and multi-byte text are entered through RUN, RUN n, GOTO, GOSUB, ON.., CONT on model and implementation; "
+             "nothing may be printed by the program, and the reported range must underline exactly the number / keyword in the listed line.",
+        note="The parser column invariant (sublist a b (print tokens) = print t) is not yet proved.",
+        technique="Coq model + theorems; fault-injection differential check with an underline monitor"),
+    "C20": dict(
+        text="Theorem that a line symbol records the code address at which it is pushed, whatever precedes it (Props/C20.v); generated "
+             "programs are run under REM / empty / unreachable line insertion, line splitting, other numberings (including line 0), "
+             "extra program text behind a direct statement, and direct vs one-line-program execution, on model and implementation; "
+             "transcripts must agree modulo reported line numbers.",
+        note="The relocation bisimulation is proved for a prototype VM only (DESIGN.md).",
+        technique="Coq model + theorems; layout-transformation relational check"),
 }
 
 PENDING_REASON = ("the model covers this property's code, but its theorem file and check module are not yet registered in this commit "
